@@ -654,7 +654,7 @@ fn emit(mode: &str, seed: u64, focus: &str, rep: &Report, trace: Option<&[String
         None => "null".to_string(),
     };
     println!(
-        "{{\"mode\":{},\"variant\":{},\"seed\":{},\"focus\":{},\"events\":{},\"threads\":{},\"ops\":{},\"faults\":{},\"thread_switches\":{},\"first_uses\":{},\"contended_first_uses\":{},\"repeated_calls\":{},\"sched_hash\":\"{:016x}\",\"h_parse_and_int\":\"{:016x}\",\"h_float_write\":\"{:016x}\",\"violations\":[{}],\"records\":{},\"trace\":{}}}",
+        "{{\"mode\":{},\"variant\":{},\"seed\":{},\"focus\":{},\"events\":{},\"threads\":{},\"ops\":{},\"faults\":{},\"thread_switches\":{},\"first_uses\":{},\"contended_first_uses\":{},\"repeated_calls\":{},\"alloc_faults\":{},\"sched_hash\":\"{:016x}\",\"h_parse_and_int\":\"{:016x}\",\"h_float_write\":\"{:016x}\",\"violations\":[{}],\"records\":{},\"trace\":{}}}",
         jstr(mode),
         jstr(variant()),
         seed,
@@ -667,6 +667,7 @@ fn emit(mode: &str, seed: u64, focus: &str, rep: &Report, trace: Option<&[String
         rep.stats.first_uses,
         rep.stats.contended_first_uses,
         rep.stats.repeated_calls,
+        ops::ALLOC_FAULTS.load(std::sync::atomic::Ordering::Relaxed) as u8,
         rep.stats.sched_hash,
         rep.stats.h_parse_and_int,
         rep.stats.h_float_write,
@@ -840,6 +841,8 @@ fn main() {
             let events = gen_history(args.seed, &sw);
             let lines: Vec<String> = events.iter().map(|e| e.encode()).collect();
             if args.print_trace {
+                // run-level fault settings first: they are part of the replay file's header
+                println!("#SWARM alloc_faults={}", sw.alloc_faults as u8);
                 for l in &lines {
                     println!("{}", l);
                 }
@@ -860,6 +863,9 @@ fn main() {
         },
         "replay" => {
             let (hdr, events) = read_trace(args.file.as_deref().expect("HARNESS: trace file"));
+            if hdr.get("alloc_faults").map(|s| s.as_str()) == Some("1") {
+                ops::ALLOC_FAULTS.store(true, std::sync::atomic::Ordering::Relaxed);
+            }
             let rep = run_gated(&events, args.records);
             let lines: Vec<String> = events.iter().map(|e| e.encode()).collect();
             emit(
